@@ -21,6 +21,7 @@ theorem new_eq (p : Nat) :
     (new p : Res (ExponentialMovingAverage F)) =
       if p = 0 then .err .InvalidParameter else .ok (fresh p) := by
   unfold new
+  try simp only [gen_helper]
   cases p with
   | zero => rfl
   | succ n => simp [fresh, alpha, bind, Res.bind]
